@@ -100,7 +100,7 @@ def c14_2(ctx, r):
             from ..lib import render
 
             it = render(ctx, fn, lp.iter)
-            ok_iter = "<JobStatus.hpc_job_ids>" in it or "Cluster.iter_hpc_job_ids" in it
+            ok_iter = it in ("<JobStatus.hpc_job_ids>", "list(<JobStatus.hpc_job_ids>)") or (it.startswith("call:Cluster.iter_hpc_job_ids()") and "[" not in it)
             tgt = lp.target.id if isinstance(lp.target, ast.Name) else None
             passes = any(isinstance(a, ast.Name) and a.id == tgt for a in s.node.args)
             ok_loop = ok_iter and passes
